@@ -128,7 +128,7 @@ func (ms MultiSignature) AddSignatureByIndex(sig []byte, index int) MultiSig {
 		return ms
 	}
 	// else add it to the list at the specific index
-	for i := sigsLen; i < index-1; i++ {
+	for i := sigsLen; i < index; i++ {
 		ms.Sigs = append(ms.Sigs, []byte{0})
 	}
 	ms.Sigs = append(ms.Sigs, sig)
